@@ -22,7 +22,7 @@ Definition shortname (host : string) : string := stake_while not_dot host.
 (* the client kinds gapic_metadata records for a service, and which of them get a spec:
    "If a service supports gRPC transport, we do not generate spec for REST even if it also supports REST transport" *)
 Definition client_kinds (transport : list string) : list string :=
-  (if mem_str "grpc" transport then ["grpc"; "grpc-async"] else []) ++ (if mem_str "rest" transport then ["rest"] else []).
+  app (if mem_str "grpc" transport then ["grpc"; "grpc-async"] else []) (if mem_str "rest" transport then ["rest"] else []).
 Definition spec_kinds (transport : list string) : list string :=
   let ks := client_kinds transport in
   filter (fun k => negb (mem_str "grpc" ks && String.eqb k "rest")) ks.
@@ -44,7 +44,7 @@ Definition generate_sample_specs (version : string) (transport : list string) (s
 
 (* the components of a tag, for the statement of its format *)
 Definition tag_parts (version : string) (s : svc) (r : rpc) (k : string) : list string :=
-  [shortname (sv_host s); version; "generated"; sv_name s; rp_name r; sync_or_async k] ++ (if rp_internal r then ["internal"] else []).
+  app [shortname (sv_host s); version; "generated"; sv_name s; rp_name r; sync_or_async k] (if rp_internal r then ["internal"] else []).
 
 Definition no_us (s : string) : bool := negb (contains "_"%char s).
 (* names free of the underscore ambiguity (DESIGN section 9 no. 16) *)
@@ -159,7 +159,7 @@ Fixpoint first_of_groups (seen : list string) (fs : list field) : list field :=
   end.
 (* [field for field in message.required_fields if not field.oneof] *)
 Definition required_plain (f : field) : bool := f_required f && match f_oneof f with None => true | Some _ => false end.
-Definition selected (fs : list field) : list field := first_of_groups [] fs ++ filter required_plain fs.
+Definition selected (fs : list field) : list field := app (first_of_groups [] fs) (filter required_plain fs).
 
 (* ".".join([prefix, name]).lstrip(".") *)
 Definition qual (prefix name : string) : string := sdrop_while (fun c => Ascii.eqb c "."%char) (prefix ++ "." ++ name).
@@ -178,12 +178,12 @@ Fixpoint gro (fuel : nat) (sc : schema) (m prefix : string) : option (list (stri
             | Some l =>
                 let fname := qual prefix (f_name f) in
                 match f_type f with
-                | TPrim p => Some (l ++ [(fname, prim_value f p)])
+                | TPrim p => Some (app l [(fname, prim_value f p)])
                 | TEnum vs => match last_opt vs with
-                              | Some v => Some (l ++ [(fname, if f_repeated f then VList [VEnum v] else VEnum v)])
+                              | Some v => Some (app l [(fname, if f_repeated f then VList [VEnum v] else VEnum v)])
                               | None => None
                               end
-                | TMsg m' => match gro k sc m' fname with Some l' => Some (l ++ l') | None => None end
+                | TMsg m' => match gro k sc m' fname with Some l' => Some (app l l') | None => None end
                 end
             end) (selected fs) (Some [])
       end
@@ -227,7 +227,7 @@ Definition meta_client (svc_name : string) (internal : bool) (transport : string
   client_class svc_name internal (String.eqb transport "grpc-async").
 Definition meta_method (m : meth) : string := snake (client_method_name m).
 Definition meta_params (m : meth) : list string :=
-  (if md_cs m then ["requests"] else "request" :: md_flat m) ++ ["retry"; "timeout"; "metadata"].
+  app (if md_cs m then ["requests"] else "request" :: md_flat m) ["retry"; "timeout"; "metadata"].
 Definition meta_has_result (m : meth) : bool := negb (md_void m).
 Definition meta_async (transport : string) : bool := String.eqb transport "grpc-async".
 
@@ -236,7 +236,7 @@ Definition tmpl_class (svc_name : string) (internal async : bool) : string := cl
 Definition tmpl_method (m : meth) : string := snake (client_method_name m).
 Definition tmpl_params (m : meth) : list string :=
   match md_cs m with
-  | false => ["request"] ++ md_flat m ++ ["retry"; "timeout"; "metadata"]
+  | false => app ["request"] (app (md_flat m) ["retry"; "timeout"; "metadata"])
   | true => ["requests"; "retry"; "timeout"; "metadata"]
   end.
 (* the sample function and file *)
